@@ -112,7 +112,8 @@ def runCollect (c : Case) : String :=
    * `merge` Merge(p1, p2[, p3]) (operator_combining.go:114-168), `takeUntil` p1 |> TakeUntil(p2)
      (operator_filter.go:510-548), `combineLatest` CombineLatest2(p1, p2)
      (operator_combining.go:244-318): one composite subscription holding the sources in
-     subscription order.
+     subscription order; `race` / `race3` / `raceWith`: Race over 2 / 3 probes torn down before any source has
+     notified (the teardown's throw-away composite subscription holds every stored source).
    * `leak` probe |> op for the operators that own a goroutine or a timer (go/harness/leak.go):
      `ObserveOn` (detachOn, operator_utility.go:647-653: `defer stop(); subscriptions.Unsubscribe()`),
      `ThrowOnContextCancel` (operator_context.go:295-301: `defer close(done); sub.Unsubscribe()`) and
@@ -139,6 +140,11 @@ def setupTree (setup : String) (ending : String) (op : String := "") : Option (L
   | "merge3", true => some [.sub [.sub [l 1], .sub [l 2], .sub [l 3], .sub []]]
   | "takeUntil", true => some [.sub [.sub [l 1], .sub [l 2]]]
   | "combineLatest", true => some [.sub [.sub [.sub [l 1], .sub [l 2]]]]
+  -- RaceWith (operator_combining.go:1031-1044, :1094-1096): the teardown collects the stored subscriptions in a
+  -- fresh composite subscription and unsubscribes that; nobody has won yet, so every source is still stored
+  | "race", true => some [.sub [.sub [l 1], .sub [l 2]]]
+  | "race3", true => some [.sub [.sub [l 1], .sub [l 2], .sub [l 3]]]
+  | "raceWith", true => some [.sub [.sub [l 1], .sub [l 2], .sub [l 3]]]
   | _, _ => none
 
 def parseErrTok (s : String) : Option Err :=
